@@ -14,7 +14,7 @@ func IsTruthy(val any) bool {
 			return false
 		}
 		return true
-	case int, int64, float64:
+	case int, int8, int16, int32, int64, uint, uint8, uint16, uint32, uint64, uintptr, float32, float64:
 		return fmt.Sprintf("%v", b) != "0"
 	case nil:
 		return false
